@@ -1,17 +1,18 @@
 (* M7 - the mini-language shared by Finder (pyflyby's scope analysis) and PySem (reference
    name-resolution semantics).  Names are ids allocated by the harness; the allocation is
-   monotone in Python's string order (ids 0..3 are reserved for the four spellings the code
-   tests for: they sort before every lower-case identifier).  No proofs here. *)
+   monotone in Python's string order (ids 0, 1000, 2000, 3000 are reserved for the four spellings the
+   code tests for; the other names get ids in the gaps).  No proofs here. *)
 From Coq Require Import NArith List Bool.
 Import ListNotations.
 
 Definition name := N.
 Definition dotted := list name.            (* a.b.c *)
 
+(* spaced so that the harness can give every other name an id in the right gap of the string order *)
 Definition n_star   : name := 0%N.         (* "*"          *)
-Definition n_all    : name := 1%N.         (* "__all__"    *)
-Definition n_class  : name := 2%N.         (* "__class__"  *)
-Definition n_future : name := 3%N.         (* "__future__" *)
+Definition n_all    : name := 1000%N.      (* "__all__"    *)
+Definition n_class  : name := 2000%N.      (* "__class__"  *)
+Definition n_future : name := 3000%N.      (* "__future__" *)
 
 (* assignment / for / with / comprehension targets: Name, Attribute chain rooted at a Name,
    Tuple or List of targets *)
@@ -65,6 +66,9 @@ Inductive stmt :=
 | SWith (ln : nat) (items : list (expr * option target)) (body : list stmt)
 | STry (ln : nat) (body : list stmt) (handlers : list handler) (orelse finalbody : list stmt)
 | SPass (ln : nat)
+| SDoc (ln : nat) (examples : list stmt) (braces : list name)
+    (* a string-literal expression statement; [examples] = its doctest examples (each a one-line statement),
+       [braces] = the {identifier}s in its text *)
 with handler :=
 | Handler (ln : nat) (ty : option expr) (nm : option name) (body : list stmt).
 
@@ -170,6 +174,64 @@ Fixpoint bsrcs (all : bool) (s : stmt) : list (name * bsrc) :=
        else []) ++
       block orelse ++ block finalbody
   | SPass _ => []
+  | SDoc _ _ _ => []
   end.
 Definition bsrcs_block (all : bool) (l : list stmt) : list (name * bsrc) := flat_map (bsrcs all) l.
 Definition binds_block (all : bool) (l : list stmt) : list name := map fst (bsrcs_block all l).
+
+(* ---------- docstrings: PythonBlock._get_docstring_nodes ----------
+   for every Module / FunctionDef / AsyncFunctionDef / ClassDef, in walk order:
+     - the first body item if it is a string literal
+     - for i in range(1, len(body)-1): body[i+1] if body[i] is an Assign and body[i+1] a string literal
+   Each docstring: (its examples, its brace identifiers). *)
+Definition docstring := (list stmt * list name)%type.
+Definition is_assign (s : stmt) : bool := match s with SAssign _ _ _ | SAllAssign _ _ => true | _ => false end.
+Definition doc_of (s : stmt) : list docstring := match s with SDoc _ ex br => [(ex, br)] | _ => [] end.
+Fixpoint epydoc (l : list stmt) : list docstring :=
+  match l with
+  | a :: ((b :: _) as r) => (if is_assign a then doc_of b else []) ++ epydoc r
+  | _ => []
+  end.
+Definition container_docs (body : list stmt) : list docstring :=
+  match body with
+  | [] => []
+  | x :: r => doc_of x ++ epydoc r
+  end.
+Fixpoint docs_stmt (s : stmt) : list docstring :=
+  let nested := fix nested (l : list stmt) : list docstring :=
+                  match l with [] => [] | x :: r => docs_stmt x ++ nested r end in
+  match s with
+  | SDef _ _ _ _ _ body => container_docs body ++ nested body
+  | SClass _ _ _ _ _ body => container_docs body ++ nested body
+  | SFor _ _ _ b o => nested b ++ nested o
+  | SWhile _ _ b o => nested b ++ nested o
+  | SIf _ _ b o => nested b ++ nested o
+  | SWith _ _ b => nested b
+  | STry _ b hs o f =>
+      nested b ++
+      (fix hl (l : list handler) : list docstring :=
+         match l with [] => [] | Handler _ _ _ hb :: r => nested hb ++ hl r end) hs ++
+      nested o ++ nested f
+  | _ => []
+  end.
+Definition docstrings_of (p : program) : list docstring := container_docs p ++ flat_map docs_stmt p.
+(* every string literal of the module is a docstring statement in this syntax: all brace identifiers *)
+Fixpoint strings_stmt (s : stmt) : list name :=
+  let nested := fix nested (l : list stmt) : list name :=
+                  match l with [] => [] | x :: r => strings_stmt x ++ nested r end in
+  match s with
+  | SDoc _ _ br => br
+  | SDef _ _ _ _ _ body => nested body
+  | SClass _ _ _ _ _ body => nested body
+  | SFor _ _ _ b o => nested b ++ nested o
+  | SWhile _ _ b o => nested b ++ nested o
+  | SIf _ _ b o => nested b ++ nested o
+  | SWith _ _ b => nested b
+  | STry _ b hs o f =>
+      nested b ++
+      (fix hl (l : list handler) : list name :=
+         match l with [] => [] | Handler _ _ _ hb :: r => nested hb ++ hl r end) hs ++
+      nested o ++ nested f
+  | _ => []
+  end.
+Definition brace_ids (p : program) : list name := flat_map strings_stmt p.
